@@ -418,8 +418,15 @@ def run_check(spec, tier, base_seed, nproc=None, n_override=None):
     extra_viol = []
     if hasattr(spec, "extra") and not harness_errors:
         try:
+            known0 = load_known(prop)
+            suspect = any(match_known(known0, v) is None for v in merged["violations"])
             extra_viol, extra_herr, extra_info = spec.extra(tier, base_seed)
-            harness_errors.extend(extra_herr)
+            if suspect and extra_herr:
+                # the batch already found a violation on this tree: a disagreement between the simulated and the real
+                # run is then more likely the same defect (e.g. schedule dependence) than a modelling error
+                extra_info = dict(extra_info or {}, disagreements_on_a_violating_tree=extra_herr)
+            else:
+                harness_errors.extend(extra_herr)
         except Exception:       # noqa: BLE001
             harness_errors.append("extra step failed: %s" % traceback.format_exc()[-600:])
     # ---- minimise one representative per violation signature, write + verify replay files
